@@ -1,3 +1,4 @@
+pub mod difficulty;
 pub mod filtersync;
 pub mod hostile;
 pub mod peersync;
@@ -11,6 +12,7 @@ pub fn run(driver: &str, kv: &HashMap<String, String>) -> i32 {
         "filtersync" => filtersync::run(kv),
         "sampling" => sampling::run(kv),
         "hostile" => hostile::run(kv),
+        "difficulty" => difficulty::run(kv),
         "mine-genesis" => mine_genesis(),
         "selftest-forged" => selftest_forged(),
         _ => {
